@@ -133,7 +133,7 @@ macro_rules! parts {
                 Tier::Thorough => cfgs(&[(3, 2), (2, 3), (2, 2), (1, 2), (3, 3)], LIMITS),
             },
             alphabet: &alpha,
-            depth: tier.pick(4, 5),
+            depth: tier.pick(4, 6),
             seconds: tier.pick(35.0, 1800.0),
             validated: false,
             nontrivial: Some("calls_with_scrollback"),
